@@ -3,6 +3,7 @@
 Everything here is written from the RFCs (9112 start lines, 3986 targets,
 4291 addresses, 9110 IMF-fixdate) and never calls the Tornado functions
 under test."""
+import functools
 import string
 
 DIG = set("0123456789")
@@ -200,6 +201,8 @@ def ref_split_host_port(netloc):
     if ":" in host and not (host[0] == "[" and host[-1] == "]" and host.count("[") == 1
                             and host.count("]") == 1):
         return ("either:unbracketed-colon-host", None)
+    if len(port.lstrip("0")) > 5 or digits_value(port) > 65535:
+        return ("either:port-out-of-range", None)      # not a port: value or None both fine
     return ("must", (host, digits_value(port)))
 
 
@@ -216,6 +219,7 @@ def mdays(y, m):
     return [31, 29 if is_leap(y) else 28, 31, 30, 31, 30, 31, 31, 30, 31, 30, 31][m - 1]
 
 
+@functools.lru_cache(maxsize=None)
 def days_from_civil(y, m, d):
     """Days since 1970-01-01 (proleptic Gregorian), by plain counting."""
     n = 0
